@@ -94,11 +94,11 @@ type Stats struct {
 	Points       int64          `json:"sched_points,omitempty"`
 	Switches     int64          `json:"switches,omitempty"`
 	Preempts     int64          `json:"preemptions,omitempty"`
-	Productions  map[string]int `json:"productions,omitempty"`
+	Funcs        map[string]int `json:"functions_entered,omitempty"` // package function -> entries inside simulated operations
 }
 
 func NewStats() *Stats {
-	return &Stats{Yields: map[string]int{}, Faults: map[string]int{}, Probes: map[string]int{}, Productions: map[string]int{}}
+	return &Stats{Yields: map[string]int{}, Faults: map[string]int{}, Probes: map[string]int{}, Funcs: map[string]int{}}
 }
 
 func (s *Stats) Add(o *Stats) {
@@ -120,8 +120,8 @@ func (s *Stats) Add(o *Stats) {
 	for k, v := range o.Probes {
 		s.Probes[k] += v
 	}
-	for k, v := range o.Productions {
-		s.Productions[k] += v
+	for k, v := range o.Funcs {
+		s.Funcs[k] += v
 	}
 }
 
@@ -331,6 +331,11 @@ func Install() {
 		var a uint64
 		if kind == vs.EvEnter {
 			a = scn.HashString(name)
+			if cur := s.current.Load(); cur >= 0 {
+				s.tasks[cur].stats.Funcs[name]++
+			} else if s.mainEnv != nil {
+				s.st.Funcs[name]++
+			}
 			if s.trace {
 				if cur := s.current.Load(); cur >= 0 {
 					s.tasks[cur].note = name
